@@ -124,6 +124,14 @@ func runC18(ctx *core.Ctx) {
 		segs[parts[len(parts)-1]] = true
 		segs[parts[0]] = true
 		unknown = append(unknown, p+"x", "x"+p, p+"-", "-"+p, p[:len(p)-1], strings.ToUpper(p[:1])+p[1:])
+		if !strings.HasPrefix(p, "-") {
+			// vendor-prefixed spellings of documented names are not documented names
+			for _, vp := range []string{"-webkit-", "-moz-", "-ms-", "-o-", "-khtml-", "mso-", "-WEBKIT-"} {
+				if !known[vp+p] {
+					unknown = append(unknown, vp+p)
+				}
+			}
+		}
 	}
 	for sg := range segs {
 		unknown = append(unknown, "x-"+sg, "scrollbar-base-"+sg, sg+"-x", "-"+sg, sg+"-", "-vendor-"+sg)
@@ -340,6 +348,13 @@ func runC18(ctx *core.Ctx) {
 						report(base, v, f, "substituted")
 					}
 				}
+				// comments: the fragment inside a complete comment before, after and inside the value
+				for _, v := range []string{base + "/*" + f.text + "*/", "/*" + f.text + "*/" + base, base + " /* " + f.text + " */", "/*" + f.text + "*/ " + base, base[:len(base)/2] + "/*" + f.text + "*/" + base[len(base)/2:]} {
+					if call(v) {
+						report(base, v, f, "in-comment")
+					}
+				}
+				lc["fragment_placements"] += 5
 				// quoted strings: the fragment as the whole content of each string in the value
 				for q := 0; q < len(base); q++ {
 					if base[q] != '"' && base[q] != '\'' {
